@@ -71,7 +71,7 @@ def panic_free_scanner_bodies(crate):
         ck = (id(crate), path)
         if ck not in _SKIP_CACHE:
             try:
-                sc, outs = SC.analyse(crate, body, regex, mode='skip')
+                sc, outs = SC.analyse(crate, body, regex, mode='skip', marker=LEXICAL_MARKERS.get(path))
                 _SKIP_CACHE[ck] = (sc, outs, None)
             except SC.Unsupported as e:
                 _SKIP_CACHE[ck] = (None, [], str(e))
@@ -603,9 +603,12 @@ LEXICAL = {'ws', 'whitespace_only', 'comment_def'}
 LEXICAL_RULES = {
     'idl::parse::ws': ('([ \t\r\n]|#[^\r\n]*)*', '`_` of the grammar: white space, line breaks and `#` comments up to the end of their line'),
     'idl::parse::whitespace_only': ('[ \t\r\n]*', 'white space and line breaks, no comments'),
-    'idl::parse::comment_def': ('#[^\n]*', 'one comment: `#` and the rest of its line, the line break left in place'),
+    'idl::parse::comment_def': ('#[^\n]*', 'one comment: `#` and the rest of its line, the line break left in place; the text starts after the blanks that follow `#`'),
 }
+# the returned text of a comment starts where the longest match of this prefix ends (Display writes `# text`; blanks after `#` are not text)
+LEXICAL_MARKERS = {'idl::parse::comment_def': '#[ \t]*'}
 SKIP_BAD_KINDS = {
+    'text-start': 'returns a comment text that does not start right after the blanks following `#`',
     'unsound': 'consumes bytes outside its language',
     'incomplete': 'fails on an input that begins with a word of its language',
     'cut': 'stops before the end of the longest match',
@@ -629,7 +632,7 @@ def check_lexical_helpers(rep, crate, cfg, rule='R13.13', prefix=''):
         ck = (id(crate), path)
         if ck not in _SKIP_CACHE:
             try:
-                sc, outs = SC.analyse(crate, body, regex, mode='skip')
+                sc, outs = SC.analyse(crate, body, regex, mode='skip', marker=LEXICAL_MARKERS.get(path))
                 _SKIP_CACHE[ck] = (sc, outs, None)
             except SC.Unsupported as e:
                 _SKIP_CACHE[ck] = (None, [], str(e))
@@ -969,6 +972,6 @@ def check(fx, rep, tier):
         check_no_byte_search(rep, crate, cfg)
         nms += check_member_start_after_comments(rep, crate, cfg)
     rep.floor('R13.7', 21, 'scanner verdict instances (3 scanners x 7)')
-    rep.floor('R13.13', 18, 'lexical helper verdict instances (3 helpers x 6)')
+    rep.floor('R13.13', 21, 'lexical helper verdict instances (3 helpers x 7)')
     rep.floor('R13.10', 2, 'member-name scan sites')
     return META
